@@ -247,10 +247,13 @@ def rand_decl(rng):
     if rng.random() < 0.1: okw["case_insensitive"] = True
     if rng.random() < 0.1: okw["invalid_values"] = "exclude"
     if rng.random() < 0.1: okw["data_first_search"] = rng.choice([True, False])
+    if rng.random() < 0.15: okw["cast_keyword_str"] = True
     src = ""
     nested = rng.random() < 0.35
     if nested:
-        src += "class %sIn(%s):\n    items: List[int] = %s\n    tag: str = 't'\n" % (tag, rng.choice(["Schema", "DataClass"]), spelling(r_ints(rng))[0])
+        src += "class %sIn(%s):\n%s    items: List[int] = %s\n    tag: str = 't'\n" % (
+            tag, rng.choice(["Schema", "DataClass"]), "    __options__ = Options(cast_keyword_str=True)\n" if okw.get("cast_keyword_str") else "",
+            spelling(r_ints(rng))[0])
     src += "class %s(%s):\n" % (tag, base)
     if okw:
         src += "    __options__ = Options(%s)\n" % ", ".join("%s=%r" % kv for kv in okw.items())
@@ -477,9 +480,15 @@ def build_input(d, kind, seed):
                 data[name] = r_input_for(rng, t)
         if rng.random() < 0.25:
             data["extra"] = r_nested(rng, 1)
+        if d["okw"].get("cast_keyword_str") and kind in ("init-dict", "init-dict-kw", "from"):
+            # keys that are not text (cast to text by the class): in the mapping itself and in the nested mappings
+            for m in [data] + [x for x in data.values() if isinstance(x, dict)] + [y for x in data.values() if isinstance(x, list) for y in x if isinstance(y, dict)]:
+                if rng.random() < 0.7:
+                    m[rng.choice([1, 2, b"k", 3.5])] = rng.choice(["a", 7, [1]])
         if d["okw"].get("case_insensitive") and data and rng.random() < 0.5:
-            k = rng.choice(list(data))
-            data[k.upper()] = data.pop(k)
+            k = rng.choice([x for x in data if isinstance(x, str)] or ["zz"])
+            if k in data:
+                data[k.upper()] = data.pop(k)
         if kind == "from-json":
             try:
                 return json.dumps(data)
